@@ -124,6 +124,45 @@ func TestVerifReplay(t *testing.T) {
     else:
         ck.record('coordinate_decoding', 'inconclusive', detail)
 
+    # field-element equality on the real code (the comparison the on-curve test ends in)
+    oke, edetail, ewit = equality_obligation(prog, ck)
+    if oke is True:
+        ck.record('field_equality', 'proved', edetail + ' (real fiat.SM2Element.Equal/IsZero over crypto/subtle, Bytes() = arbitrary canonical encoding)')
+    elif oke == 'cex' and ewit is not None:
+        av, bv_ = ewit
+        # a public-API witness: x with y^2 = t where t differs from x^3-3x+b exactly as the two encodings of the counterexample do
+        dlt = int.from_bytes(bytes(av), 'big') ^ int.from_bytes(bytes(bv_), 'big')
+        pub = None
+        for xs in range(1, 400):
+            rhs = (xs ** 3 - 3 * xs + ref.B) % P
+            t = rhs ^ dlt
+            if t >= P or t == rhs:
+                continue
+            ys = pow(t, (P + 1) // 4, P)
+            if ys * ys % P == t:
+                pub = (xs, ys)
+                break
+        src = '''package sm2
+import ("testing"; "bytes"; "github.com/bilibili/smgo/sm2/internal/fiat")
+func TestVerifReplay(t *testing.T) {
+	ab, bb := %s, %s
+	a, err := new(fiat.SM2Element).SetBytes(ab); if err != nil { t.Skip("not canonical") }
+	b, err := new(fiat.SM2Element).SetBytes(bb); if err != nil { t.Skip("not canonical") }
+	want := 0; if bytes.Equal(ab, bb) { want = 1 }
+	if a.Equal(b) != want { t.Fatalf("Equal(%%x, %%x) = %%d", ab, bb, a.Equal(b)) }
+	wz := 0; if bytes.Equal(ab, make([]byte, 32)) { wz = 1 }
+	if a.IsZero() != wz { t.Fatalf("IsZero(%%x) = %%d", ab, a.IsZero()) }
+	%s
+}''' % (go_bytes(av), go_bytes(bv_), ('if CheckOnCurve(%s, %s) { t.Fatalf("off-curve pair accepted") }' % (go_bytes(b32(pub[0])), go_bytes(b32(pub[1])))) if pub else '')
+        ok, out, path = ck.go_test('sm2', src, name='field_equality')
+        if ok is False:
+            ck.record('field_equality', 'violated', edetail, sample=dict(a=hexs(av), b=hexs(bv_)))
+            ck.violation('CheckOnCurve.equality', 'the field comparison behind the on-curve test is not equality of canonical encodings: ' + edetail, path)
+        else:
+            ck.encoder_mismatch('field_equality', edetail)
+    else:
+        ck.record('field_equality', 'inconclusive', edetail)
+
     # ------------------------------------------------------------ 2. GenerateKey / DerivePublic under contracts
     eng = proto_engine(prog)
     maxc = 3 if thorough else 2
